@@ -103,6 +103,7 @@ class Ctx(object):
         self._distinct_nontrivial = set()
         self.samples = []
         self.dist = collections.Counter()
+        self._fail_kinds = {}
         self.failures = []        # oracle failures: the implementation contradicts the statement
         self.disagreements = []   # model != implementation
         self.disagreements_checked = 0
@@ -148,7 +149,10 @@ class Ctx(object):
     def fail(self, kind, what, replay):
         """the implementation contradicts the property statement on this input"""
         rec = {"kind": kind, "what": what, "replay": replay}
-        if len(self.failures) < 200:
+        # per-kind cap, so that a flood of one (possibly known) kind can never crowd out another kind
+        n = self._fail_kinds.get(kind, 0)
+        self._fail_kinds[kind] = n + 1
+        if n < 2000:
             self.failures.append(rec)
         return rec
 
